@@ -40,6 +40,20 @@ def norm_err(e: str) -> str:
     return e[:110]
 
 
+def bounded_decoder_raises(tier, seed):
+    """C01 half of DecoderOK: no decoder raises or fails to terminate on the sampled corpus."""
+    r = bounded_decoder_ok(tier, seed)
+    r["failures"] = [f for f in r["failures"] if " raised " in f["observed"] or "terminate" in f["observed"]]
+    return r
+
+
+def bounded_decoder_spans(tier, seed):
+    """C03 half of DecoderOK: parentless in-bounds hits with well-formed children."""
+    r = bounded_decoder_ok(tier, seed)
+    r["failures"] = [f for f in r["failures"] if not (" raised " in f["observed"] or "terminate" in f["observed"])]
+    return r
+
+
 def bounded_decoder_ok(tier, seed):
     """Run-time DecoderOK(f) of EVERY shipped decoder on the sampled corpus (see props/fuzz.py)."""
     from props import fuzz
